@@ -50,6 +50,7 @@ type GenOpts struct {
 	NoAt        bool
 	NoStartEnd  bool
 	SelectorOnly bool
+	Focus        string // "" | range | agg | bin | func : construct forced at the top of the expression
 }
 
 var metricNames = []string{"foo", "bar"}
@@ -236,9 +237,10 @@ func genData(r *rand.Rand, w Window, lb int64, o GenOpts) []SeriesData {
 // expression generator
 
 type qgen struct {
-	r *rand.Rand
-	w Window
-	o GenOpts
+	r       *rand.Rand
+	w       Window
+	o       GenOpts
+	lastSel string // the last generated selector (matchers), reused now and then
 }
 
 func (g *qgen) dur() string {
@@ -247,13 +249,15 @@ func (g *qgen) dur() string {
 
 func (g *qgen) matchers() string {
 	var ms []string
-	switch g.r.Intn(8) {
+	switch g.r.Intn(30) {
 	case 0:
 		ms = append(ms, `__name__=~"foo|bar"`)
 	case 1:
 		ms = append(ms, `__name__!="foo"`, `a=~".+"`)
 	case 2:
 		ms = append(ms, `__name__=~".*"`, `b!=""`)
+	case 3:
+		ms = append(ms, `__name__="bar"`)
 	default:
 	}
 	for _, n := range []string{"a", "b", "c"} {
@@ -272,6 +276,15 @@ func (g *qgen) matchers() string {
 }
 
 func (g *qgen) selector() string {
+	if g.lastSel != "" && g.r.Intn(4) == 0 {
+		return g.lastSel // the same select twice in one query (with other modifiers)
+	}
+	s := g.freshSelector()
+	g.lastSel = s
+	return s
+}
+
+func (g *qgen) freshSelector() string {
 	ms := g.matchers()
 	name := ""
 	if !strings.Contains(ms, "__name__") {
@@ -304,6 +317,15 @@ func (g *qgen) modifiers() string {
 }
 
 func (g *qgen) vecSelector() string { return g.selector() + g.modifiers() }
+
+// forcedModifiers always shifts the selector (offset and/or @).
+func (g *qgen) forcedModifiers() string {
+	for {
+		if m := g.modifiers(); m != "" {
+			return m
+		}
+	}
+}
 
 var rangeFuncs = []string{"rate", "increase", "delta", "irate", "idelta", "deriv", "changes", "resets",
 	"sum_over_time", "avg_over_time", "min_over_time", "max_over_time", "count_over_time", "last_over_time",
@@ -376,7 +398,7 @@ func (g *qgen) vec(d int) string {
 	case k == 18:
 		return "(" + g.vec(d-1) + ")"
 	default:
-		if g.o.Vocabulary == "model" {
+		if g.o.Vocabulary == "model" || g.r.Intn(4) != 0 {
 			return g.vecSelector()
 		}
 		return fmt.Sprintf("timestamp(%s)", g.vec(d-1))
@@ -495,9 +517,67 @@ func (g *qgen) scal(d int) string {
 	return pick(g.r, []string{"1", "2", "0.5", "0", "10", "100", "3", "-2"})
 }
 
+func (g *qgen) aggOf(d int) string {
+	op := pick(g.r, []string{"sum", "min", "max", "avg", "count", "group", "stddev", "stdvar"})
+	mod := ""
+	switch g.r.Intn(3) {
+	case 0:
+		mod = " by (" + g.labelList() + ")"
+	case 1:
+		mod = " without (" + g.labelList() + ")"
+	}
+	switch g.r.Intn(5) {
+	case 0:
+		return fmt.Sprintf("%s%s (%s, %s)", pick(g.r, []string{"topk", "bottomk"}), mod, g.kparam(d-1), g.vec(d-1))
+	case 1:
+		return fmt.Sprintf("quantile%s (%s, %s)", mod, g.qparam(d-1), g.vec(d-1))
+	}
+	return fmt.Sprintf("%s%s (%s)", op, mod, g.vec(d-1))
+}
+
+func (g *qgen) funcOf(d int) string {
+	switch g.r.Intn(12) {
+	case 0:
+		return fmt.Sprintf("clamp(%s, %s, %s)", g.vec(d-1), g.scal(d-1), g.scal(d-1))
+	case 1:
+		return fmt.Sprintf("clamp_min(%s, %s)", g.vec(d-1), g.scal(d-1))
+	case 2:
+		return fmt.Sprintf("clamp_max(%s, %s)", g.vec(d-1), g.scal(d-1))
+	case 3:
+		return fmt.Sprintf("vector(%s)", g.scal(d))
+	case 4:
+		return g.scal(d)
+	case 5:
+		return "-" + g.paren(g.vec(d-1))
+	case 6:
+		return fmt.Sprintf("scalar(%s)", g.vec(d-1))
+	case 7:
+		return fmt.Sprintf("%s %s %s", g.scalAtom(d), pick(g.r, []string{"+", "-", "*", "/", "%", "^", "== bool", "> bool"}), g.scalAtom(d))
+	}
+	return fmt.Sprintf("%s(%s)", pick(g.r, simpleFuncs), g.vec(d-1))
+}
+
 func genQuery(r *rand.Rand, w Window, o GenOpts) string {
 	g := &qgen{r: r, w: w, o: o}
 	d := 1 + r.Intn(o.MaxDepth)
+	switch o.Focus {
+	case "selpair":
+		sel := g.freshSelector()
+		op := pick(g.r, []string{"-", "+", "*", "/"})
+		return fmt.Sprintf("(%s%s) %s (%s%s)", sel, g.modifiers(), op, sel, g.forcedModifiers())
+	case "range":
+		q := fmt.Sprintf("%s(%s[%s]%s)", pick(g.r, rangeFuncs), g.selector(), g.dur(), g.modifiers())
+		if r.Intn(4) == 0 {
+			q = "sum by (a) (" + q + ")"
+		}
+		return q
+	case "agg":
+		return g.aggOf(d)
+	case "bin":
+		return g.binary(d)
+	case "func":
+		return g.funcOf(d)
+	}
 	if r.Intn(8) == 0 && !o.SelectorOnly {
 		return g.scal(d)
 	}
